@@ -3,7 +3,7 @@ import itertools, math
 import numpy as np
 from vf import core
 from vf.ref import defs, dims, names, uexpr
-from vf.monitors import c02_handles, c02_usys, c02_data
+from vf.monitors import c02_handles, c02_usys, c02_data, c02_doors
 from .common import all_names, chunks, udim, TAINTED
 
 RULE = ("names: every exposed unit name (exhaustive); a case is distinct per name. pairs: ordered pairs of names sharing a "
@@ -38,7 +38,13 @@ RULE = ("names: every exposed unit name (exhaustive); a case is distinct per nam
         "exponent range, +-inf, nan), in one layout (1-d, strided 2-d view, unyt_quantity, byte-swapped, read-only), for an ordered pair of "
         "commensurable unit expressions classified by its exact ratio (unity / whole-s / whole-m / whole-l / recip / recip-l / fraction / huge / "
         "inexact); every element must equal Fraction(x_i) * exact ratio within (class tolerance of the constituents + 4 eps of the float "
-        "format the result is held in); distinct = (door, layout, dtype, ratio class)")
+        "format the result is held in); distinct = (door, layout, dtype, ratio class). "
+        "doors: the namespace door for custom registries, unit_systems.add_symbols(ns, R) (monitors/c02_doors.py): R = plain / cgs-reporting / "
+        "deep copy, with 1-3 prefixable built-in symbols REDEFINED (modify float / modify quantity / remove+re-add other scale / remove+re-add "
+        "other dimension), one prefixable user symbol added, prefixed spellings memoised before / after the edits or not at all; one evaluation "
+        "= one name of the filled namespace (all ~3900) against the sequential definition model's prefix x scale-in-R, dimension and offset, "
+        "plus conversions prefixed -> base between namespace units and to Unit(s, registry=R); distinct = (make, edit kind, warm, how the name "
+        "resolves [entry/spelling/prefix], edited/user/untouched symbol). Every make x edit kind x warm is enumerated whatever the seed")
 ASSUMPTIONS = ("vf/ref/defs.py (own transcription of SI/NIST/CODATA/IAU definitions with a tolerance class per entry) is the trusted base",
                "names listed in unyt's default_unit_name_alternatives are the documented spellings",
                "handles: 'the definitions' of a user registry are what the history of add/modify/remove calls made them (sequential model "
@@ -104,6 +110,9 @@ def batches(tier, seed):
     # the DATA of conversions: dtype x magnitude x ratio class x door x layout (enumerated pairs ignore the seed; magnitudes are seeded)
     nd = 16 if tier == "quick" else 64
     b += [("data/%d" % i, ("data", (tier, seed, i, nd))) for i in range(nd)]
+    # the namespace-filling door add_symbols(ns, registry) on registries with redefined prefixable symbols (every make x edit x warm)
+    ndo, dreps = (4, 1) if tier == "quick" else (16, 24)
+    b += [("doors/%d" % i, ("doors", (seed, i, ndo, dreps))) for i in range(ndo)]
     return b
 
 
@@ -270,6 +279,9 @@ def worker(batch, rec):
     elif kind == "data":
         t, seed, i, n = payload
         c02_data.run_batch(unyt, rec, t, seed, i, n)
+    elif kind == "doors":
+        seed, i, n, reps = payload
+        c02_doors.run_batch(unyt, rec, seed, i, n, reps)
     elif kind == "compound":
         seed, i, n = payload
         r = core.rng(seed, "compound", i)
@@ -336,8 +348,8 @@ def extra(tier, seed, results):
     for _, r in results:
         for k, v in r.get("counters", {}).items():
             c[k] = c.get(k, 0) + v
-        reached.update(x for x in r.get("reached", []) if x.startswith(("handles|", "usys|", "data|")))
-    zero = [k for k in c02_handles.DECIDING + c02_usys.DECIDING + c02_data.DECIDING if not c.get(k)]
+        reached.update(x for x in r.get("reached", []) if x.startswith(("handles|", "usys|", "data|", "doors|")))
+    zero = [k for k in c02_handles.DECIDING + c02_usys.DECIDING + c02_data.DECIDING + c02_doors.DECIDING if not c.get(k)]
     known = core.load_findings()
     if zero and not any(k not in known for _, r in results for k in r.get("viol", {})):     # a new violation is reported, never masked
         raise core.Inconclusive("sub-monitors-saw-nothing:" + ",".join(zero))
@@ -348,5 +360,9 @@ def extra(tier, seed, results):
     dcat = c02_data.catalogue()
     if dcat - reached and not any(k not in known for _, r in results for k in r.get("viol", {})):
         raise core.Inconclusive("data-cells-not-reached:" + ",".join(sorted(dcat - reached)[:6]))
-    return {"sub_monitor_counters": {k: c[k] for k in sorted(c) if k.startswith(("handles_", "usys_", "data_"))}, "handles_catalogue_size": len(cat),
-            "usys_catalogue_size": len(ucat), "data_catalogue_size": len(dcat), "unreached": sorted((cat | ucat | dcat) - reached)}
+    ocat = c02_doors.catalogue()
+    if ocat - reached and not any(k not in known for _, r in results for k in r.get("viol", {})):
+        raise core.Inconclusive("doors-cells-not-reached:" + ",".join(sorted(ocat - reached)[:6]))
+    return {"sub_monitor_counters": {k: c[k] for k in sorted(c) if k.startswith(("handles_", "usys_", "data_", "doors_"))}, "handles_catalogue_size": len(cat),
+            "usys_catalogue_size": len(ucat), "data_catalogue_size": len(dcat), "doors_catalogue_size": len(ocat),
+            "unreached": sorted((cat | ucat | dcat | ocat) - reached)}
